@@ -282,6 +282,17 @@ func stressQueries(rounds, workers int, seed uint64) []string {
 		}
 		fresh.Push(inner, stk.Cond("k", stk.Eq, inner))
 		fresh2.Push(inner2, stk.Cond("k", stk.Eq, inner2))
+		// a deep tree (ten levels, Conditions in between): every concurrent caller
+		// must get the rendering it gets in isolation
+		deep := stk.And().Push("leaf", round)
+		for lv := 0; lv < 10; lv++ {
+			if lv%3 == 2 {
+				deep = stk.Or().Push(fmt.Sprintf("l%d", lv), stk.Cond("k", stk.Ne, deep))
+			} else {
+				deep = stk.And().SetParen(true).Push(deep, fmt.Sprintf("l%d", lv))
+			}
+		}
+		deepWant := deep.String()
 		var wg sync.WaitGroup
 		for w := 0; w < workers; w++ {
 			wg.Add(1)
@@ -304,6 +315,12 @@ func stressQueries(rounds, workers int, seed uint64) []string {
 					}
 					if (e == nil) != wantEq {
 						report(fmt.Sprintf("round %d: IsEqual verdict differs from the verdict in isolation", round))
+					}
+					for k := 0; k < 10; k++ {
+						if got := deep.String(); got != deepWant {
+							report(fmt.Sprintf("round %d: String of a deep tree under concurrency %q differs from its rendering in isolation %q", round, got, deepWant))
+							break
+						}
 					}
 					if i == 0 {
 						_ = fresh.String()
